@@ -53,6 +53,8 @@ def math_tu(arch):
                 ('m_ldexp_%s' % tn, 'R<%s> m_ldexp_%s(R<%s> a, R<%s> e) { return xsimd::ldexp(B<%s>(a), B<%s>(e)); }' % (t, tn, t, it, t, it)),
                 ('m_frexp_%s' % tn, 'R<%s> m_frexp_%s(R<%s> a) { B<%s> e; return xsimd::frexp(B<%s>(a), e) + xsimd::to_float(e); }' % (t, tn, t, it, t)),
                 ('m_sincos_%s' % tn, 'R<%s> m_sincos_%s(R<%s> a) { auto p = xsimd::sincos(B<%s>(a)); return p.first + p.second; }' % (t, tn, t, t)),
+                ('m_sincoss_%s' % tn, 'R<%s> m_sincoss_%s(R<%s> a) { return xsimd::sincos(B<%s>(a)).first; }' % (t, tn, t, t)),
+                ('m_sincosc_%s' % tn, 'R<%s> m_sincosc_%s(R<%s> a) { return xsimd::sincos(B<%s>(a)).second; }' % (t, tn, t, t)),
                 ('m_fma_%s' % tn, 'R<%s> m_fma_%s(R<%s> a, R<%s> b, R<%s> c) { return xsimd::fma(B<%s>(a), B<%s>(b), B<%s>(c)); }' % (t, tn, t, t, t, t, t, t)),
                 ('m_polar_%s' % tn, 'R<%s> m_polar_%s(R<%s> a, R<%s> b) { auto z = xsimd::polar(B<%s>(a), B<%s>(b)); return z.real() + z.imag(); }' % (t, tn, t, t, t, t)),
         ):
